@@ -136,6 +136,10 @@ def make_value(vs, n, tiny=False):
             return int(x)
         if e == 'bigint':
             return 2**53 + 1 + 2 * int(x)  # not representable in float64
+        if e == 'float01':
+            return float(x % 2)  # 0.0 / 1.0: equal to the int 0 / 1 and to False / True, and of another type
+        if e == 'int01':
+            return int(x % 2)
         if e == 'bool':
             return bool(x % 2)
         if e == 'str':
